@@ -87,6 +87,13 @@ WrongCases ==
 \cup {[r |-> A(<<I(1), I(2)>>), f |-> "join", a |-> <<I(1)>>], [r |-> A(<<I(1), I(2)>>), f |-> "slice", a |-> <<S("x")>>],
       [r |-> A(<<I(1), I(2)>>), f |-> "slice", a |-> <<I(0), S("x")>>], [r |-> A(<<I(1), I(2)>>), f |-> "slice", a |-> <<Nil>>],
       [r |-> B(TRUE), f |-> "then", a |-> <<>>]}
+\* a wrong kind is an error whatever the receiver and the other arguments are (empty receivers, bounds at / past the end)
+\cup {[r |-> r, f |-> "slice", a |-> <<I(st), bad>>] : r \in {A(<<>>), A(<<I(1), I(2)>>)}, st \in {-1, 0, 2, 3}, bad \in {S("x"), Nil, F(1, 1), B(TRUE)}}
+\cup {[r |-> A(<<>>), f |-> "join", a |-> <<I(1)>>], [r |-> A(<<>>), f |-> "slice", a |-> <<S("x")>>]}
+\cup {[r |-> C(<<>>), f |-> f, a |-> a] : f \in {"contains", "trim", "trimLeft", "trimRight", "split"}, a \in {<<I(1)>>, <<Nil>>}}
+\cup {[r |-> C(<<>>), f |-> f, a |-> a] : f \in {"truncate", "at", "repeat"}, a \in {<<C(<<"x">>)>>, <<Nil>>}}
+\cup {[r |-> C(<<"a">>), f |-> "truncate", a |-> <<I(n), I(1)>>] : n \in {0, 1, 5}}
+\cup {[r |-> C(<<"1">>), f |-> "decimal", a |-> <<C(<<".">>), bad>>] : bad \in {Nil, B(TRUE), F(1, 0)}}
 \* a name that is no built-in of the receiver's type (and no custom function) is an error
 \cup {[r |-> r, f |-> f, a |-> <<>>] : r \in {C(<<"a">>), A(<<I(1)>>), I(1), F(1, 1), B(TRUE)}, f \in {"nope", "float", "binary", "join", "upper"} }
 
